@@ -13,12 +13,12 @@ pk=$(grep -m1 '^package ' "$demo" | awk '{print $2}')
 case "$pk" in postscript) pkgdir=".";; type1) pkgdir="type1";; names) pkgdir="type1/names";; afm) pkgdir="afm";; pfb) pkgdir="pfb";; esac
 race=""; if head -3 "$demo" | grep -q -- '-race' || [[ "$(basename $d)" == C18-* ]]; then race="-race"; fi
 cp "$demo" "$pkgdir/zz_demo_test.go"
-base=$(cd $pkgdir && timeout 900 go test $race -vet=off -count=1 -run 'Demo|ZZ|TestC18' . 2>&1 | grep -E '^(ok|FAIL|---)' | tail -1)
+base=$(cd $pkgdir && timeout 900 go test $race -vet=off -count=1 -run 'Demo|ZZ|TestC18' . 2>&1 | grep -a -E '^(ok|FAIL|---)' | tail -1)
 if ! git apply "$patch" 2>/dev/null; then echo "RESULT $(basename $d): patch does not apply"; git checkout -- .; git clean -fdq; exit 1; fi
 rm "$pkgdir/zz_demo_test.go"
 suite=$(timeout 900 go test -vet=off -count=1 ./... 2>&1 | grep -v 'no test files' | grep -c '^ok')
 suitefail=$(timeout 900 go test -vet=off -count=1 ./... 2>&1 | grep -cE '^(FAIL|---)')
 cp "$demo" "$pkgdir/zz_demo_test.go"
-mut=$(cd $pkgdir && timeout 900 go test $race -vet=off -count=1 -run 'Demo|ZZ|TestC18' . 2>&1 | grep -E '^(ok|FAIL)' | tail -1)
+mut=$(cd $pkgdir && timeout 900 go test $race -vet=off -count=1 -run 'Demo|ZZ|TestC18' . 2>&1 | grep -a -E '^(ok|FAIL)' | tail -1)
 git checkout -- . ; git clean -fdq
 echo "RESULT $(basename $d): pkg=$pkgdir suite_ok_pkgs=$suite suite_fail_lines=$suitefail | demo without: $base | demo with: $mut"
